@@ -168,17 +168,14 @@ def hAdd : Handler Unit :=
     mask := .fresh }
 
 /-- `v_addc_co_u32 v2, vcc, v0, v1, vcc`; GCN3 builds a fresh VCC from `oldVCC`, CDNA3 updates in place.
-    The carry-out is transcribed from each ALU as it is: CDNA3 `result > 0xFFFFFFFF`; GCN3
-    `src0 > math.MaxUint32 - carry - src1` evaluated in `uint64`, which wraps when `src1 = 0xffffffff` and
-    the carry-in is 1 (the carry-out is then lost — an ISA-conformance matter of C03, lane-local, so not a
-    C06 violation). -/
+    The carry-out is `src0 + src1 + carry > 0xFFFFFFFF` in both ALUs (the GCN3 handler used to compute
+    `src0 > MaxUint32 - carry - src1` in `uint64`, which wrapped for `src1 = 0xffffffff` with carry-in 1;
+    repaired by a `fix:` commit found by C03's vector module). -/
 def hAddc (m : MaskMode) : Handler Unit :=
   { f := fun _ a =>
       let c := if a.mbit then 1 else 0
-      let cout := match m with
-        | .fresh => decide (a.regs 0 > (18446744073709551616 + 4294967295 - c - a.regs 1) % 18446744073709551616)
-        | _ => decide (a.regs 0 + a.regs 1 + c > 4294967295)
-      { writes := [(2, u32 (a.regs 0 + a.regs 1 + c))], bit := cout, loads := [], stores := [] }
+      { writes := [(2, u32 (a.regs 0 + a.regs 1 + c))], bit := decide (a.regs 0 + a.regs 1 + c > 4294967295),
+        loads := [], stores := [] }
     mask := m }
 
 /-- `v_cmp_lt_u32 vcc, v0, v1` -/
